@@ -1,2 +1,96 @@
-(* C12 driver section: not implemented yet *)
-let init () = ()
+(* C12: BIP32 public derivation model (coq/Model/Bip32.v) and specification (coq/Model/Bip32Spec.v).
+   The group, HMAC-SHA512, SHA-256 and RIPEMD-160 are oracles answered by the harness. *)
+module M = M_c12
+module S = Proto.Std (M)
+module C = S.C
+let q () = C.z_of_hex "FFFFFFFFFFFFFFFFFFFFFFFFFFFFFFFEBAAEDCE6AF48A03BBFD25E8CD0364141"
+
+let hmac512 k d = C.bytes_of_hex (S.one "hmac512" [C.hex_of_bytes k; C.hex_of_bytes d])
+let sha256 d = C.bytes_of_hex (S.one "sha256" [C.hex_of_bytes d])
+let ripemd160 d = C.bytes_of_hex (S.one "ripemd160" [C.hex_of_bytes d])
+
+let parse_path (s : string) : M.n list =
+  if s = "-" || s = "" then [] else List.map C.n_of_hex (String.split_on_char ',' s)
+
+let parse_prefix (s : string) : M.prefix =
+  match s with
+  | "x" -> M.XPub | "y" -> M.YPub | "z" -> M.ZPub | "t" -> M.TPub
+  | _ when String.length s > 1 && s.[0] = 'c' -> M.Custom (C.n_of_hex (String.sub s 1 (String.length s - 1)))
+  | _ -> failwith "c12: bad prefix"
+
+let str_outcome (o : M.n list M.outcome) : string =
+  match o with
+  | M.Val s -> "val:" ^ C.hex_of_bytes s
+  | M.Err e -> "err:" ^ C.hex_of_n e
+  | M.Panic p -> "panic:" ^ C.hex_of_n p
+
+let init () =
+  (* derive_child_pubkey parent chain_code index *)
+  Proto.register "c12.child" (fun args -> match args with
+    | [p; cc; i] ->
+      let g = S.group "k" in
+      (match M.derive_child_pubkey g hmac512 (q ()) p (C.bytes_of_hex cc) (C.n_of_hex i) with
+       | M.Val ((o, child), cc') -> ["val"; C.hex_of_z o; child; C.hex_of_bytes cc']
+       | M.Err e -> ["err"; C.hex_of_n e]
+       | M.Panic s -> ["panic"; C.hex_of_n s])
+    | _ -> failwith "c12.child: arity");
+  Proto.register "c12.fp" (fun args -> match args with
+    | [p] ->
+      let g = S.group "k" in
+      [str_outcome (M.get_finger_print g sha256 ripemd160 p)]
+    | _ -> failwith "c12.fp: arity");
+  (* derive_xpub prefix root chain_code path, then to_string(false) and to_string(true) of an Ok result *)
+  Proto.register "c12.xpub" (fun args -> match args with
+    | [pfx; root; cc; path] ->
+      let g = S.group "k" in
+      (match M.derive_xpub g hmac512 sha256 ripemd160 (q ()) (parse_prefix pfx) root (C.bytes_of_hex cc) (parse_path path) with
+       | M.Val x ->
+         ["val"; C.hex_of_n (M.prefix_u32 x.M.x_prefix); C.hex_of_n x.M.x_depth; C.hex_of_bytes x.M.x_parent_fingerprint;
+          C.hex_of_n x.M.x_child_number; C.hex_of_bytes x.M.x_chain_code; x.M.x_pubkey;
+          str_outcome (M.to_string g sha256 x false); str_outcome (M.to_string g sha256 x true)]
+       | M.Err e -> ["err"; C.hex_of_n e]
+       | M.Panic s -> ["panic"; C.hex_of_n s])
+    | _ -> failwith "c12.xpub: arity");
+  (* to_string of a hand-made XPubKey *)
+  Proto.register "c12.tostring" (fun args -> match args with
+    | [pfx; depth; fp; num; cc; key] ->
+      let g = S.group "k" in
+      let x = { M.x_prefix = parse_prefix pfx; M.x_parent_fingerprint = C.bytes_of_hex fp; M.x_child_number = C.n_of_hex num;
+                M.x_pubkey = key; M.x_chain_code = C.bytes_of_hex cc; M.x_depth = C.n_of_hex depth } in
+      [str_outcome (M.to_string g sha256 x false); str_outcome (M.to_string g sha256 x true)]
+    | _ -> failwith "c12.tostring: arity");
+  Proto.register "c12.offsets" (fun args -> match args with
+    | [root; cc; path] ->
+      let g = S.group "k" in
+      let os = M.walk_offsets g hmac512 (q ()) root (C.bytes_of_hex cc) (parse_path path) in
+      [if os = [] then "-" else String.concat "," (List.map C.hex_of_z os)]
+    | _ -> failwith "c12.offsets: arity");
+  (* the specification: bip32_spec + spec_string *)
+  Proto.register "c12.spec" (fun args -> match args with
+    | [version; root; cc; path] ->
+      let g = S.group "k" in
+      (match M.bip32_spec g hmac512 sha256 ripemd160 (q ()) root (C.bytes_of_hex cc) (parse_path path) with
+       | Some e ->
+         let v = C.n_of_hex version in
+         ["some"; C.hex_of_n e.M.e_depth; C.hex_of_bytes e.M.e_fingerprint; C.hex_of_n e.M.e_child_number;
+          C.hex_of_bytes e.M.e_chain_code; e.M.e_key;
+          C.hex_of_bytes (M.spec_string g sha256 v e false); C.hex_of_bytes (M.spec_string g sha256 v e true)]
+       | None -> ["none"])
+    | _ -> failwith "c12.spec: arity");
+  Proto.register "c12.ckdpub" (fun args -> match args with
+    | [p; cc; i] ->
+      let g = S.group "k" in
+      (match M.cKDpub g hmac512 (q ()) p (C.bytes_of_hex cc) (C.n_of_hex i) with
+       | Some (k, c) -> ["some"; k; C.hex_of_bytes c; C.hex_of_bytes (M.fingerprint g sha256 ripemd160 p)]
+       | None -> ["none"])
+    | _ -> failwith "c12.ckdpub: arity");
+  (* Base58 alone: encode, and decode of the encoding *)
+  Proto.register "c12.b58" (fun args -> match args with
+    | [b] ->
+      let s = M.base58_encode (C.bytes_of_hex b) in
+      [C.hex_of_bytes s;
+       (match M.base58_decode s with Some r -> "some:" ^ C.hex_of_bytes r | None -> "none")]
+    | _ -> failwith "c12.b58: arity");
+  Proto.register "c12.b58dec" (fun args -> match args with
+    | [s] -> [(match M.base58_decode (C.bytes_of_hex s) with Some r -> "some:" ^ C.hex_of_bytes r | None -> "none")]
+    | _ -> failwith "c12.b58dec: arity")
